@@ -33,9 +33,9 @@ def configs(tier):
 def _force_configs(tier):
     F = forceh.make_configs
     if tier == "quick":
-        return F([2, 3]) + F([2], algs=("overlap", "simple"), bounds=((0, 100),), hists=("reconf", "engine2", "stale", "subset"))
+        return F([2, 3]) + F([2], algs=("overlap", "simple"), bounds=((0, 100),), hists=("reconf", "engine2", "stale", "subset", "interleaved"))
     c = F([1, 2, 3], dens=(0.85, 0.5), stubws=(1, 5), bounds=((0, 100), (None, 100), (0, None), (-30, 45)))
-    c += F([2], bounds=((0, 100), (None, 100)), hists=("twice", "reconf", "renodes", "engine2", "subset", "stale"))
+    c += F([2], bounds=((0, 100), (None, 100)), hists=("twice", "reconf", "renodes", "engine2", "subset", "stale", "interleaved"))
     c += F([3], algs=("overlap", "simple"), bounds=((0, 100),), hists=("reconf", "engine2", "stale"), shards=4)
     c += F([4], algs=("overlap", "simple"), bounds=((0, 100),), shards=8)
     c += F([2], vpsc="real")  # the real vpsc end to end (no contract stub)
